@@ -128,9 +128,22 @@ def events_for(darsia, rng, shape, table, h, omode, kind, halo, tid, sample_sing
         c, sgn = table[m]
         shift[c - 1] = rng.randint(1, 3) * h[m]
     o2 = np.asarray(img.origin, dtype=float) + shift
-    img.update_metadata(origin=darsia.Coordinate(o2.copy()) if rng.random() < 0.5 else list(o2))
-    regeo.append(("moved", o2))
-    for label, onew in regeo:
+    dims_ = [h[m] * shape[m] for m in range(n)]
+    odef = np.zeros(n)
+    for m in range(n):
+        c, sgn = table[m]
+        if sgn < 0:
+            odef[c - 1] = dims_[m]
+    for label in ("moved", "reset", "assigned"):
+        if label == "moved":
+            img.update_metadata(origin=darsia.Coordinate(o2.copy()) if rng.random() < 0.5 else list(o2))
+            onew = o2
+        elif label == "reset":
+            img.reset_origin()             # the documented default: the image occupies [0, dimension] on every Cartesian axis
+            onew = odef
+        else:
+            img.origin = darsia.Coordinate(o2 + shift)     # plain attribute assignment, as the library itself does
+            onew = o2 + shift
         cs2 = img.coordinatesystem
         lat2 = lambda x, onew=onew: to_lattice(x, onew, table, h)   # noqa: E731
         ev.append(dict(base, tid=tid, op="corners", origin=lat2(img.origin)[0], opposite=lat2(img.opposite_corner)[0], vsize=vs, steps=steps,
